@@ -189,6 +189,31 @@ func (c Conj) commonCount(d Conj) int {
 	return n
 }
 
+// symDiffIDs: ids of the facts in exactly one of c and d.
+func (c Conj) symDiffIDs(d Conj) []int {
+	var out []int
+	n := len(c.bits)
+	if len(d.bits) > n {
+		n = len(d.bits)
+	}
+	for i := 0; i < n; i++ {
+		var a, b uint64
+		if i < len(c.bits) {
+			a = c.bits[i]
+		}
+		if i < len(d.bits) {
+			b = d.bits[i]
+		}
+		x := a ^ b
+		for x != 0 {
+			t := bits.TrailingZeros64(x)
+			out = append(out, i*64+t)
+			x &^= 1 << uint(t)
+		}
+	}
+	return out
+}
+
 func (c Conj) intersect(d Conj) Conj {
 	n := Conj{fa: c.fa}
 	for i, w := range c.bits {
@@ -442,8 +467,17 @@ func (fa *Facts) States(fn *ssa.Function) map[*ssa.BasicBlock]DNF {
 	}
 	st := fa.compute(fn, fa.Cap)
 	if st == nil {
+		// the widening did not settle with this many disjuncts: retry with fewer (each step keeps less, the last one
+		// keeps a single conjunction and always terminates)
 		fa.Overflow++
-		st = fa.compute(fn, 1)
+		for _, cap := range []int{16, 4, 2, 1} {
+			if cap >= fa.Cap {
+				continue
+			}
+			if st = fa.compute(fn, cap); st != nil {
+				break
+			}
+		}
 	}
 	fa.states[fn] = st
 	fa.Analysed++
@@ -570,7 +604,7 @@ func (fa *Facts) transfer(in DNF, pred, succ *ssa.BasicBlock, predIdx int) DNF {
 	return out
 }
 
-func prune(d DNF, cap int) DNF {
+func prune(d DNF, cap int, at *ssa.BasicBlock) DNF {
 	if d == nil {
 		return nil
 	}
@@ -604,17 +638,56 @@ func prune(d DNF, cap int) DNF {
 			}
 			return DNF{m}
 		}
-		// widen: merge the two disjuncts that lose the fewest facts when replaced by their intersection
+		// widen: merge the two disjuncts that lose the fewest facts when replaced by their intersection; among the
+		// pairs that lose equally few, the one that loses the fewest facts about values that can still be tested
+		// from here on (their definitions dominate this block) - otherwise the pair that differs only in the newest
+		// comparison is as cheap as one that differs in a comparison of a loop body already left, and the newest
+		// comparison is the one a later gate needs.
 		ls := make([]int, len(out))
 		for i := range out {
 			ls[i] = out[i].Len()
 		}
-		bi, bj, best := -1, -1, 1<<30
+		best := 1 << 30
 		for i := 0; i < len(out); i++ {
 			for j := i + 1; j < len(out); j++ {
-				loss := ls[i] + ls[j] - 2*out[i].commonCount(out[j])
-				if loss < best {
-					bi, bj, best = i, j, loss
+				if loss := ls[i] + ls[j] - 2*out[i].commonCount(out[j]); loss < best {
+					best = loss
+				}
+			}
+		}
+		fa := out[0].fa
+		live := map[int]bool{}
+		isLive := func(id int) bool {
+			if l, ok := live[id]; ok {
+				return l
+			}
+			l := true
+			f := fa.byID[id]
+			for _, v := range []ssa.Value{f.X, f.Y} {
+				if in, ok := v.(ssa.Instruction); ok && at != nil && in.Block() != nil && in.Block() != at && !in.Block().Dominates(at) {
+					l = false
+				}
+			}
+			live[id] = l
+			return l
+		}
+		bi, bj, bestLive := -1, -1, 1<<30
+		for i := 0; i < len(out) && bestLive > 0; i++ {
+			for j := i + 1; j < len(out); j++ {
+				if ls[i]+ls[j]-2*out[i].commonCount(out[j]) != best {
+					continue
+				}
+				n := 0
+				for _, id := range out[i].symDiffIDs(out[j]) {
+					if isLive(id) {
+						n++
+					}
+				}
+				if n < bestLive {
+					bi, bj, bestLive = i, j, n
+					if n == 0 {
+						break
+					}
 				}
 			}
 		}
@@ -687,7 +760,7 @@ func (fa *Facts) compute(fn *ssa.Function, cap int) map[*ssa.BasicBlock]DNF {
 			if joined == nil {
 				joined = DNF{} // reachable in CFG, but all incoming paths infeasible so far
 			}
-			joined = prune(joined, cap)
+			joined = prune(joined, cap, b)
 			if !dnfEqual(st[b], joined) {
 				st[b] = joined
 				changed = true
